@@ -102,13 +102,17 @@ def run(ctx):
   # ---- C04.scope
   ds = ctx.func('config._decorate_with_scope')
   sw = ctx.func('config._decorate_with_scope.scope_decorator.scoping_wrapper')
+  # the scope-components parameter of the helper: the one handed to config_scope in the wrapper
+  scope_param = next((u(ce.args[0]) for wi_ in walk_local(sw.node) if isinstance(wi_, ast.With) for it_ in wi_.items
+                      for ce in [it_.context_expr] if isinstance(ce, ast.Call) and prog.resolve_call(sw, ce) == 'config.config_scope' and len(ce.args) == 1
+                      and u(ce.args[0]) in ds.params), ds.params[1] if len(ds.params) > 1 else None)
   withs = [n for n in walk_local(sw.node) if isinstance(n, ast.With)]
   ok = False
   for wi in withs:
     for it in wi.items:
       ce = it.context_expr
       if isinstance(ce, ast.Call) and prog.resolve_call(sw, ce) == 'config.config_scope' and len(ce.args) == 1 \
-          and u(ce.args[0]) == ds.params[1]:
+          and u(ce.args[0]) == scope_param:
         inner = [c for c in walk_local(wi) if isinstance(c, ast.Call) and isinstance(c.func, ast.Name) and c.func.id == 'fn_or_cls']
         allc = [c for c in walk_local(sw.node) if isinstance(c, ast.Call) and isinstance(c.func, ast.Name) and c.func.id == 'fn_or_cls']
         # every call of the wrapped configurable is inside the with, and the with is unconditional
@@ -129,8 +133,26 @@ def run(ctx):
   rets = [n for n in walk_local(ds.node) if isinstance(n, ast.Return) and not isinstance(n.parent, ast.FunctionDef) or
           (isinstance(n, ast.Return) and n.parent is ds.node)]
   g4, facts4 = std_facts(prog, ds)
-  bare = [n for n in g4.live_nodes() if n.kind == 'return' and ('c', ds.params[1], False) in facts4[n.id]]
+  bare = [n for n in g4.live_nodes() if n.kind == 'return' and ('c', scope_param, False) in facts4[n.id]]
   ok = bool(bare) and all(u(n.ast.value) == ds.params[0] + '.wrapper' for n in bare)
+  if not bare:
+    # the helper always decorates; then every caller must take the bare wrapper itself when there is no scope
+    sites = prog.call_sites_of(ds.qual)
+    ok = bool(sites)
+    for cf, call in sites:
+      arg = next((k.value for k in call.keywords if k.arg == scope_param), None)
+      if arg is None and scope_param in ds.params and ds.params.index(scope_param) < len(call.args):
+        arg = call.args[ds.params.index(scope_param)]
+      gc_, fc_ = std_facts(prog, cf)
+      fs_ = None
+      for cn in gc_.live_nodes():
+        if cn.ast is not None and cn.kind in ('stmt', 'return', 'test') and any(x is call for x in ast.walk(cn.ast)):
+          fs_ = fc_[cn.id]
+      scoped_here = arg is not None and fs_ is not None and ('c', u(arg), True) in fs_
+      # and the other branch uses <configurable>.wrapper
+      other = [cn for cn in gc_.live_nodes() if cn.ast is not None and cn.kind in ('stmt', 'return') and arg is not None
+               and ('c', u(arg), False) in fc_[cn.id] and u(getattr(cn.ast, 'value', None)).endswith('.wrapper')]
+      ok = ok and scoped_here and bool(other)
   ctx.check(ok, 'C04.scope', construct(ds), 'an unscoped reference yields the bare wrapper (runs under the ambient scope)',
             'an unscoped reference no longer yields the bare wrapper', ds.loc(), instance='unscoped')
   scope_copy_out(ctx, 'C04.scope')
